@@ -30,6 +30,7 @@ func init() {
 			need(m, &out, "rejected_calls", 500)
 			need(m, &out, "rejected_then_successful_calls", 300)
 			need(m, &out, "writepacket_grid_cases", 2000)
+			need(m, &out, "writepacket_exact_fit_cases", 2000)
 			need(m, &out, "stuffing_class_0", 100)
 			need(m, &out, "stuffing_class_1", 100)
 			need(m, &out, "stuffing_class_2", 100)
@@ -43,14 +44,14 @@ func init() {
 		Rule: "the C04 histories (incl. failing WriteTables followed by successful ones, WriteData whose adaptation field leaves no room for the PES header, removals and re-adds, ≥40 packets per PID) executed on a " +
 			"fresh Muxer; an online trace checker follows continuity_counter per PID (PAT, PMT, every elementary PID between its Add and its Remove) over the writer's byte stream; " +
 			"distinct = hash of the output bytes; non-trivial = some tracked PID carried ≥17 payload packets (wrap-around)",
-		Assumptions: []string{"packets without payload need not advance the counter and must not consume a value", "the counter of a PID restarts freely after Remove + Add (the property covers a stream for as long as it stays added)"},
+		Assumptions: []string{"packets without payload need not advance the counter and must not consume a value", "continuity is followed per PID over the whole output, also across Remove + Add of the same PID (a receiver of that PID must not observe a discontinuity)"},
 		Shards:      32,
 		Run:         func(c *mon.Ctx) { runMuxStruct(c, "C05") },
 		Guards: func(m *mon.Merged, tier string) []string {
 			var out []string
 			need(m, &out, "payload_packets_tracked", 30000)
 			need(m, &out, "counter_wraps_observed", 500)
-			need(m, &out, "failed_then_successful_table_emissions", 100)
+			need(m, &out, "failed_then_successful_table_emissions", 40)
 			need(m, &out, "af_without_room_for_pes_header", 50)
 			need(m, &out, "removals_followed_by_readd", 20)
 			return out
@@ -74,6 +75,9 @@ func runMuxStruct(c *mon.Ctx, prop string) {
 			o.MaxOps = 200
 		}
 		ops, period := RandomHistory(r, o)
+		if i%8 == 0 {
+			ops = readdAutoScenario(r)
+		}
 		hr := runHistory(ops, period)
 		if prop == "C04" {
 			checkStructure(c, "histories", i, hr)
@@ -85,6 +89,37 @@ func runMuxStruct(c *mon.Ctx, prop string) {
 		}
 	}
 	if prop == "C04" {
+		// WritePacket exact-fit boundaries: for every subset of adaptation parts x extension parts the payload is sized to fit
+		// exactly, one byte short, and 1 / 2 / many bytes too long (the rejected ones must leave nothing in the output)
+		for sub := int64(0); sub < 32*8; sub++ {
+			if !c.Mine("fit", sub) {
+				continue
+			}
+			r := c.Rng("fit", sub)
+			for rep := 0; rep < int(c.Pick(3, 20)); rep++ {
+				a := gen.RandomAF(r, 1+r.IntN(150), int(sub)&31, int(sub)>>5)
+				a.StuffingLength = []int{0, 0, 1, r.IntN(20)}[r.IntN(4)]
+				fit := 184 - 1 - gen.AFBodySize(a)
+				if fit < 1 {
+					continue
+				}
+				for _, d := range []int{-1, 0, 1, 2, 3 + r.IntN(60)} {
+					if fit+d < 1 {
+						continue
+					}
+					p := &astits.Packet{Header: astits.PacketHeader{PID: 0x1500, HasPayload: true, HasAdaptationField: true, ContinuityCounter: uint8(rep)}, AdaptationField: mon.Clone(a), Payload: gen.Bytes(r, fit+d)}
+					hr := runHistory([]HOp{{Kind: "packet", Pkt: p}, {Kind: "packet", Pkt: &astits.Packet{Header: astits.PacketHeader{PID: 0x1501, HasPayload: true}, Payload: []byte{1, 2, 3}}}}, 40)
+					checkStructure(c, "fit", sub, hr)
+					if d > 0 && hr.Calls[0].Err == nil {
+						c.Violate("C04/oversize-packet-accepted", "fit", sub, fmt.Sprintf("payload %d bytes longer than what fits was accepted", d), nil)
+					}
+					if d <= 0 && hr.Calls[0].Err != nil {
+						c.Violate("C04/fitting-packet-rejected", "fit", sub, fmt.Sprintf("payload of %d bytes with %d available: %v", fit+d, fit, hr.Calls[0].Err), nil)
+					}
+					c.Count("writepacket_exact_fit_cases")
+				}
+			}
+		}
 		// exhaustive WritePacket size grid: payload 0..190 x adaptation field shapes
 		for pl := int64(0); pl <= 190; pl++ {
 			if !c.Mine("grid", pl) {
@@ -317,10 +352,11 @@ func checkContinuity(c *mon.Ctx, stage string, idx int64, hr *HistRun) {
 			return // C04's subject
 		}
 		if cl.Op.Kind == "remove" && cl.Err == nil {
-			delete(last, cl.PID)
+			// the counter is followed per PID over the whole output: a PID that is added again must go on counting, otherwise
+			// a receiver of that PID observes a discontinuity and discards the unit it was assembling
 			removed[cl.PID] = true
 		}
-		if cl.Op.Kind == "add" && cl.Err == nil && removed[cl.Op.PID] && cl.Op.PID != 0 {
+		if cl.Op.Kind == "add" && cl.Err == nil && ((removed[cl.Op.PID] && cl.Op.PID != 0) || (cl.Op.Auto && len(removed) > 0)) {
 			c.Count("removals_followed_by_readd")
 			delete(removed, cl.Op.PID)
 		}
